@@ -203,29 +203,39 @@ package base
 //@ func ti/base.GetSortedTSignaturesByClass
 //@   safe
 
+//@ # a prefix/suffix marker is recognised only on a name that is non-empty once the marker is cut
+//@ # off: callers strip the marker and index the rest (RemoveSuffix, str[1:], id[0])
 //@ func ti/base.IsAmpersandPrefix
 //@   safe
+//@   ensures[C01] result ==> len(str) > 1
 
 //@ func ti/base.IsAsteriskPrefix
 //@   safe
+//@   ensures[C01] result ==> len(str) > 1
 
 //@ func ti/base.IsAtmarkPrefix
 //@   safe
+//@   ensures[C01] result ==> len(str) > 1
 
 //@ func ti/base.IsDoubleAsteriskPrefix
 //@   safe
+//@   ensures[C01] result ==> len(str) > 2
 
 //@ func ti/base.IsEqualPrefix
 //@   safe
+//@   ensures[C01] result ==> len(str) > 1
 
 //@ func ti/base.IsKeySuffix
 //@   safe
+//@   ensures[C01] result ==> len(str) > 1
 
 //@ func ti/base.IsSetterSuffix
 //@   safe
+//@   ensures[C01] result ==> len(str) > 1
 
 //@ func ti/base.IsSymbol
 //@   safe
+//@   ensures[C01] result ==> len(str) > 1
 
 //@ func ti/base.IsUpper
 //@   safe
